@@ -1,6 +1,6 @@
 import NaijaVerif.Model.Analysis
 import NaijaVerif.Lemmas.AnalysisCheck
-import NaijaVerif.Lemmas.AnalysisLiveMono
+import NaijaVerif.Lemmas.AnalysisLiveModel
 import NaijaVerif.Model.CfgCount
 import NaijaVerif.Gen.Caps
 import NaijaVerif.Driver.AstIO
@@ -134,16 +134,17 @@ def answer (line : String) : String :=
           let total := (sortDedup plan.stmts).length + plan.fns.length
           let proved := if ok then (sortDedup p'.stmts).length + p'.fns.length else 0
           let unr := (sortDedup (unreachable root)).length
-          -- the liveness theorem `c03_full_checked`: its decidable hypothesis `modelOkB` (with a breakdown)
-          let c := mkCtx root facts
+          -- C03 (`c03_full_holds`): its decidable hypothesis `structOkB` — conditions on the program and its facts
+          -- only, no plan — with a breakdown; `model` = the same conditions evaluated for the model's own plan
+          -- (`modelOkB`, implied by `structOkB`: `modelOk_of_struct`)
           let distinct := decide (((rows root).map (·.sid)).Nodup)
           let glob := C03.globalOkB root facts
-          let unused := c.unusedFns.map (·.2)
-          let fnsOk := plan.fns.all (fun g => unused.contains g)
-          let rootOk := C03.rootOkB (C03.lsetupOf root facts (some plan) (C03.safe2B c)) root
-          let live := C03.modelOkB root facts && fnsOk
+          let fnsOk := true
+          let rootOk := C03.rootOkB (C03.lsetupOf root facts none (C03.safe2B (mkCtx root facts))) root
+          let live := C03.structOkB root facts
+          let modelOk := C03.modelOkB root facts
           let b := fun (x : Bool) => if x then 1 else 0
-          s!"cover total={total} proved={proved} unreach={unr} fns={plan.fns.length} ok={b ok} live={b live} distinct={b distinct} global={b glob} fnsok={b fnsOk} rootok={b rootOk}"
+          s!"cover total={total} proved={proved} unreach={unr} fns={plan.fns.length} ok={b ok} live={b live} distinct={b distinct} global={b glob} fnsok={b fnsOk} rootok={b rootOk} model={b modelOk}"
       | _, _ => "cover malformed"
   | _ => "bad-op"
 
